@@ -232,6 +232,12 @@ class Check:
         if extra:
             payload.update(extra)
         sig = hashlib.sha256(json.dumps([kind, inp], sort_keys=True, default=str).encode()).hexdigest()[:12]
+        kf = self.is_known(sig)
+        if kf is not None:
+            # a listed finding: identified by this exact input; reported as KNOWN-FINDING, not as a violation
+            if not any(k[0] is kf for k in self.known_hits):
+                self.known_hits.append((kf, kf.get("what", required)))
+            return None
         path = os.path.join(VERIF, "replays", f"{self.pid}_{sig}.json")
         with open(path, "w") as f:
             json.dump(payload, f, indent=1, default=str)
@@ -247,6 +253,10 @@ class Check:
 
     def known(self, kf, what):
         self.known_hits.append((kf, what))
+
+    def open_findings(self, kind=None):
+        return [k for k in self.findings if k.get("property") == self.pid and k.get("status") == "open"
+                and (kind is None or k.get("kind") == kind)]
 
     def finish(self, level="proof", assumptions=None):
         wall = time.time() - self.t0
